@@ -182,7 +182,15 @@ func pubsubMain(args []string) int {
 				off := rng.Intn(len(pad) - ln + 1)
 				body := append([]byte(key+"|"), pad[off:off+ln]...)
 				registry.Store(key, crc32.ChecksumIEEE(body))
-				if err := p.cn.send("PUB ps\n", lenPrefixed(body)); err != nil {
+				if n%53 == 7 {
+					// the 4-byte size field arrives in two pieces, with the daemon busy sending this very connection its
+					// messages in between: what is read is still the size that was written
+					lp := lenPrefixed(body)
+					k := 1 + rng.Intn(3)
+					if err := p.cn.sendSplit("PUB ps\n", lp[:k], lp[k:], time.Duration(100+rng.Intn(400))*time.Microsecond); err != nil {
+						return
+					}
+				} else if err := p.cn.send("PUB ps\n", lenPrefixed(body)); err != nil {
 					return
 				}
 				atomic.AddInt64(&pubs, 1)
